@@ -51,7 +51,7 @@ for p in props:
         'evidence_file': '/verif/evidence/%s.json' % p, 'replay_cmd_template': './check %s --replay {path}' % p,
         'engine': 'V+K' if v else 'K',
         'level_claimed': {'category': 'proof', 'text': text + ((' ALL-N part (Verus): ' + v) if v else ''), 'design_ref': 'DESIGN.md §5 ' + p},
-        'level_note': NOTE_K + extra + ('BOUNDED STAND-IN (labelled bounded, never counted as proved): native panic injection at every call index / every panicking element for N <= 4 on the unwinding paths no verifier here can execute (standin/src/main.rs); ' if p in ('C04', 'C05', 'C09') else '') + ('engine V: extractor rewrite rules and the external_body prelude are trusted (listed in the evidence).' if v else ''),
+        'level_note': NOTE_K + extra + ('BOUNDED STAND-IN (labelled bounded, never counted as proved): native panic injection at every call index / every panicking element for N <= 4 on the unwinding paths no verifier here can execute (standin/src/main.rs); ' if p in ('C04', 'C05', 'C09', 'C16') else '') + ('engine V: extractor rewrite rules and the external_body prelude are trusted (listed in the evidence).' if v else ''),
         'technique': TECH_V if v else TECH_K})
     if v:
         m['engines'][1]['serves_properties'].append(p)
